@@ -5,6 +5,7 @@ import (
 	"bytes"
 	"errors"
 	"fmt"
+	"github.com/nspcc-dev/neo-go/pkg/crypto/hash"
 	"sort"
 
 	"github.com/nspcc-dev/neo-go/pkg/core/mpt"
@@ -571,6 +572,9 @@ type ProofCase struct {
 	Key     vt.Bytes `json:"key"`
 	From    vt.Bytes `json:"proof_of"` // proof of which present key is the starting list (empty: all nodes of the trie)
 	Tampers []Tamper `json:"tampers"`
+	// RootOf >= 0: the verifier is given the hash of element RootOf (mod length) of the final list as the root (the
+	// verifyproof RPC takes the root from the caller): whatever the bytes are, verification ends with an answer.
+	RootOf int `json:"root_of"`
 }
 
 func genContent(t *rapid.T, label string, min int) []KV {
@@ -606,7 +610,7 @@ func genProofCase(t *rapid.T) ProofCase {
 	n := rapid.IntRange(0, 4).Draw(t, "nt")
 	for i := 0; i < n; i++ {
 		tm := Tamper{
-			Kind: rapid.SampledFrom([]string{"drop", "dup", "swap", "trunc", "flip", "foreign", "raw", "leafsub"}).Draw(t, "tk"),
+			Kind: rapid.SampledFrom([]string{"drop", "dup", "swap", "trunc", "flip", "foreign", "raw", "leafsub", "rawnode", "rawnode"}).Draw(t, "tk"),
 			I:    rapid.IntRange(0, 40).Draw(t, "ti"),
 			J:    rapid.IntRange(0, 600).Draw(t, "tj"),
 		}
@@ -614,6 +618,10 @@ func genProofCase(t *rapid.T) ProofCase {
 			tm.Raw = rapid.SliceOfN(rapid.Byte(), 0, 40).Draw(t, "raw")
 		}
 		c.Tampers = append(c.Tampers, tm)
+	}
+	c.RootOf = -1
+	if rapid.IntRange(0, 2).Draw(t, "forged_root") == 0 {
+		c.RootOf = rapid.IntRange(0, 40).Draw(t, "root_of")
 	}
 	return c
 }
@@ -672,7 +680,7 @@ func checkProofCase(c ProofCase, o *vt.Obs) error {
 		}
 	}
 	for _, tm := range c.Tampers {
-		if len(nodes) == 0 && tm.Kind != "foreign" && tm.Kind != "raw" {
+		if len(nodes) == 0 && tm.Kind != "foreign" && tm.Kind != "raw" && tm.Kind != "rawnode" {
 			continue
 		}
 		switch tm.Kind {
@@ -703,6 +711,25 @@ func checkProofCase(c ProofCase, o *vt.Obs) error {
 			}
 		case "raw":
 			nodes = append(nodes, tm.Raw)
+		case "rawnode":
+			// the encoding of a node of a kind that is never stored on its own: Empty (04), Hash (03 + 32 bytes: zeroes,
+			// the genuine root, the hash of another element), or a well-formed leaf / extension made by hand
+			switch tm.I % 5 {
+			case 0:
+				nodes = append(nodes, []byte{0x04})
+			case 1:
+				nodes = append(nodes, append([]byte{0x03}, make([]byte, 32)...))
+			case 2:
+				nodes = append(nodes, append([]byte{0x03}, root.BytesBE()...))
+			case 3:
+				if len(nodes) == 0 {
+					nodes = append(nodes, []byte{0x04})
+				}
+				h := hash.DoubleSha256(nodes[tm.J%len(nodes)])
+				nodes = append(nodes, append([]byte{0x03}, h.BytesBE()...))
+			default:
+				nodes = append(nodes, []byte{0x01, 0x01, 0x0a, 0x04}) // extension with an Empty child
+			}
 		case "leafsub":
 			// substitute a leaf holding another stored value
 			ks := sortedKeys(model)
@@ -711,7 +738,28 @@ func checkProofCase(c ProofCase, o *vt.Obs) error {
 			nodes = append(nodes, leaf.Bytes())
 		}
 	}
-	v, ok := mpt.VerifyProof(root, c.Key, nodes)
+	if c.RootOf >= 0 && len(nodes) > 0 {
+		forged := hash.DoubleSha256(nodes[c.RootOf%len(nodes)])
+		var pan any
+		func() {
+			defer func() { pan = recover() }()
+			mpt.VerifyProof(forged, c.Key, nodes)
+		}()
+		if pan != nil {
+			return fmt.Errorf("VerifyProof panics on a list of %d byte strings with the root set to the hash of element %d (%x): %v", len(nodes), c.RootOf%len(nodes), nodes[c.RootOf%len(nodes)], pan)
+		}
+		o.Label("forged-root")
+	}
+	var pan any
+	var v []byte
+	var ok bool
+	func() {
+		defer func() { pan = recover() }()
+		v, ok = mpt.VerifyProof(root, c.Key, nodes)
+	}()
+	if pan != nil {
+		return fmt.Errorf("VerifyProof panics on a tampered list of %d byte strings: %v", len(nodes), pan)
+	}
 	want, present := model[string(c.Key)]
 	switch {
 	case ok && !present:
